@@ -1,6 +1,7 @@
 package main
 
 import (
+	"sort"
 	"fmt"
 	"go/ast"
 	"go/token"
@@ -65,6 +66,65 @@ func ruleStream(c *Ctx) {
 	if reader == nil || worker == nil || forwarder == nil {
 		c.Unresolved("ParseNDStream:goroutines", fmt.Sprintf("reader (%v), worker (%v) or forwarder (%v) closure not recognised", reader != nil, worker != nil, forwarder != nil))
 		return
+	}
+	// both top-level goroutines (reader, forwarder) are started on every path through ParseNDStream itself
+	{
+		fg := p.FGOf(fd)
+		var missing []string
+		for name, l := range map[string]*ast.FuncLit{"reader": reader, "forwarder": forwarder} {
+			var gs *ast.GoStmt
+			for _, st := range fd.Body.List {
+				if g, ok := st.(*ast.GoStmt); ok && g.Call.Fun == ast.Expr(l) {
+					gs = g
+				}
+			}
+			if gs == nil {
+				missing = append(missing, name+" goroutine is not started by a top-level `go` statement")
+				continue
+			}
+			gb, _, ok := fg.Where(gs)
+			if !ok {
+				missing = append(missing, name+": go statement not in the CFG")
+				continue
+			}
+			for _, rb := range fg.ReturnBlocks() {
+				if len(rb.Nodes) > 0 && unsupportedCPUExit(p, fd, rb.Nodes[len(rb.Nodes)-1]) {
+					continue // the documented refusal: an error item is sent and the channel closed
+				}
+				if int(rb.Index) != gb && fg.ReachWithoutBlock(0, int(rb.Index), gb) {
+					missing = append(missing, "ParseNDStream can return without having started its "+name+" goroutine")
+					break
+				}
+			}
+		}
+		sort.Strings(missing)
+		c.Check(len(missing) == 0, "ParseNDStream:starts", p.Pos(fd), "reader and forwarder goroutines are started on every path", strings.Join(missing, "; ")+": the result channel is then never written to nor closed and the caller waits for ever", "any stream on that path")
+	}
+	// queueError: on every path a fresh result channel is queued and the error item sent on it
+	if qfd := p.Func("queueError"); qfd != nil {
+		okQ, nQ := true, 0
+		why := ""
+		if sps, ok := p.SymPaths(qfd, 100, nil); ok {
+			for _, sp := range sps {
+				if !sp.Feasible() || sp.RetNode == nil {
+					continue
+				}
+				nQ++
+				var sends []SymEffect
+				for _, ef := range sp.Effects {
+					if ef.Kind == "send" {
+						sends = append(sends, ef)
+					}
+				}
+				if len(sends) != 2 || sends[0].Target != "P:queue" || !strings.HasPrefix(sends[0].Val.String(), "make(chan ") || sends[1].Target != sends[0].Val.String() || reCallNum.ReplaceAllString(sends[1].Val.String(), "") != "lit:Stream{Value:nil,Error:P:err}" {
+					okQ = false
+					why = "a path does not queue a fresh channel and send Stream{Value: nil, Error: err} on it" + condsDesc(sp, 3)
+				}
+			}
+		}
+		c.Check(okQ && nQ >= 1, "queueError:delivers", p.Pos(qfd), "queues a fresh channel and sends the error item on it, on every path", "queueError: "+why+" — the reader's final error (io.EOF included) never reaches the consumer and the result channel is never closed", "any stream")
+	} else {
+		c.Unresolved("queueError", "function not found")
 	}
 	bad := map[string]bool{}
 	report := func(site, msg, wit string, n ast.Node) {
@@ -425,4 +485,38 @@ func bodyLoopPaths(p *GoProg, fd *ast.FuncDecl, lit *ast.FuncLit) []*SymPath {
 		return nil
 	}
 	return p.BodyLoopSegmentPaths(fd, lit.Body, loop, 20000)
+}
+
+// unsupportedCPUExit: n lies in the body of `if !SupportedCPU() { go func() { res <- Stream{Error: …}; close(res) }(); return }`.
+func unsupportedCPUExit(p *GoProg, fd *ast.FuncDecl, n ast.Node) bool {
+	for _, st := range fd.Body.List {
+		ifs, ok := st.(*ast.IfStmt)
+		if !ok || !containsNode(ifs.Body, n) {
+			continue
+		}
+		u, ok := ast.Unparen(ifs.Cond).(*ast.UnaryExpr)
+		if !ok || u.Op.String() != "!" {
+			return false
+		}
+		call, ok := ast.Unparen(u.X).(*ast.CallExpr)
+		if !ok || p.CalleeName(call) != "SupportedCPU" {
+			return false
+		}
+		sends, closes := false, false
+		ast.Inspect(ifs.Body, func(m ast.Node) bool {
+			switch x := m.(type) {
+			case *ast.SendStmt:
+				if strings.Contains(p.Str(x.Value), "Error:") && !strings.Contains(p.Str(x.Value), "Error: nil") {
+					sends = true
+				}
+			case *ast.CallExpr:
+				if p.CalleeName(x) == "close" {
+					closes = true
+				}
+			}
+			return true
+		})
+		return sends && closes
+	}
+	return false
 }
